@@ -501,6 +501,27 @@ func (f *TF) Mul(a, b *Term) *Term {
 	return f.intern(t)
 }
 
+// IntBit builds a bit operation (and/or/xor) on Int terms via 64-bit two's complement; the result is the unsigned
+// value in [0, 2^64).
+func (f *TF) IntBit(op string, a, b *Term) *Term {
+	m := pow2(64)
+	if a.IsConst() && b.IsConst() {
+		x, y := new(big.Int).Mod(a.IV, m), new(big.Int).Mod(b.IV, m)
+		r := new(big.Int)
+		switch op {
+		case "and":
+			r.And(x, y)
+		case "or":
+			r.Or(x, y)
+		case "xor":
+			r.Xor(x, y)
+		}
+		return f.Int(r)
+	}
+	t := &Term{Op: "ibv" + op, Sort: SInt, Args: []*Term{a, b}, lo: bigZero, hi: new(big.Int).Sub(m, bigOne)}
+	return f.intern(t)
+}
+
 // floorDiv / floorMod big helpers (SMT-LIB div/mod semantics for positive divisor; Euclidean in general)
 func euclidDivMod(a, b *big.Int) (*big.Int, *big.Int) {
 	q, m := new(big.Int).DivMod(a, b, new(big.Int)) // Euclidean: m >= 0
@@ -850,6 +871,8 @@ func sortStr(s Sort, w int) string {
 
 func (t *Term) head() string {
 	switch t.Op {
+	case "ibvand", "ibvor", "ibvxor":
+		return "" // handled in render
 	case "neg":
 		return "-"
 	case "extract":
@@ -925,6 +948,11 @@ func SMT(root *Term) string {
 			return s
 		}
 		var sb strings.Builder
+		if t.Op == "ibvand" || t.Op == "ibvor" || t.Op == "ibvxor" {
+			// bit operation on mathematical integers through 64-bit two's complement
+			fmt.Fprintf(&sb, "(bv2int (%s ((_ int2bv 64) %s) ((_ int2bv 64) %s)))", "bv"+t.Op[3:], render(t.Args[0]), render(t.Args[1]))
+			return sb.String()
+		}
 		sb.WriteByte('(')
 		sb.WriteString(t.head())
 		for _, a := range t.Args {
@@ -1051,6 +1079,18 @@ func Eval(root *Term, m Model) (res MVal, err error) {
 				r.I = q
 			} else {
 				r.I = mm
+			}
+		case "ibvand", "ibvor", "ibvxor":
+			m := pow2(64)
+			x, y := new(big.Int).Mod(ev(t.Args[0]).I, m), new(big.Int).Mod(ev(t.Args[1]).I, m)
+			r.I = new(big.Int)
+			switch t.Op {
+			case "ibvand":
+				r.I.And(x, y)
+			case "ibvor":
+				r.I.Or(x, y)
+			default:
+				r.I.Xor(x, y)
 			}
 		case "<":
 			r.B = ev(t.Args[0]).I.Cmp(ev(t.Args[1]).I) < 0
